@@ -228,6 +228,17 @@ func runC03(c *Ctx) {
 				argOK = true
 			}
 			r.Check("C03.3", "add-device", gsOK && argOK, c.pos(s.in), fmt.Sprintf("AddDevice(dev) for every node after a successful fill-in (guards %v, argument is the local OCI device: %v)", s.guards, argOK))
+			// no iteration finishes without it (a `continue` taken on some computed condition - "this
+			// node is already there" - skips the node and everything that follows for it)
+			for _, l := range ir.Loops(apply) {
+				if !l.BodyBlocks()[s.in.Block()] || !strings.HasSuffix(c.valueDesc(l.Over), "DeviceNodes") {
+					continue
+				}
+				body, hdr := l.Body, l.Header
+				skip := ir.CanReach(apply, ir.PathQuery{FromEdge: &body, ToAny: func(in ssa.Instruction) bool { return in.Block() == hdr },
+					Stop: func(in ssa.Instruction) bool { return in == s.in }})
+				r.Check("C03.3", "add-device-every-node", !skip, c.pos(s.in), "no iteration over the device nodes reaches the next one without AddDevice (only an error return leaves early)")
+			}
 		case strings.HasSuffix(name, ".RemoveDevice"):
 			argOK := isDevField(call.Common().Args[1], "Path")
 			r.Check("C03.3", "remove-device", gsOK && argOK, c.pos(s.in), fmt.Sprintf("RemoveDevice(dev.Path) (guards %v, argument dev.Path: %v)", s.guards, argOK))
